@@ -269,6 +269,176 @@ def gen_finalize(repo):
 
 GENERATORS["FinalizeGen"] = gen_finalize
 
+# ---------------------------------------------------------------------------------------------------------------------------
+# CheckpointAction as a value: __eq__ of the base class, __len__ / __iter__ / __contains__ of Forward and Reverse, with the
+# attribute names resolved through the @property definitions (self.n0 -> self.args[i]) and the order of the arguments that
+# __init__ hands to CheckpointAction.__init__ checked against the model's constructors.
+ARG_ORDER = {"Forward": ["n0", "n1", "write_ics", "write_adj_deps", "storage"], "Reverse": ["n1", "n0", "clear_adj_deps"],
+             "Copy": ["n", "from_storage", "to_storage"], "Move": ["n", "from_storage", "to_storage"]}
+
+
+def _methods(cdef):
+    return {n.name: n for n in cdef.body if isinstance(n, ast.FunctionDef)}
+
+
+def _strip_doc(body):
+    return [x for x in body if not (isinstance(x, ast.Expr) and isinstance(x.value, ast.Constant) and isinstance(x.value.value, str))]
+
+
+def _init_order(cdef):
+    ms = _methods(cdef)
+    if "__init__" not in ms:
+        raise Untranslatable("%s has no __init__" % cdef.name)
+    f = ms["__init__"]
+    params = [a.arg for a in f.args.args][1:]
+    body = _strip_doc(f.body)
+    if f.args.vararg or f.args.kwonlyargs or f.args.defaults or f.args.kw_defaults or len(body) != 1:
+        raise Untranslatable("%s.__init__ is not a plain forwarding constructor" % cdef.name)
+    c = body[0].value if isinstance(body[0], ast.Expr) else None
+    ok = (isinstance(c, ast.Call) and isinstance(c.func, ast.Attribute) and c.func.attr == "__init__" and isinstance(c.func.value, ast.Call)
+          and isinstance(c.func.value.func, ast.Name) and c.func.value.func.id == "super" and not c.func.value.args and not c.keywords
+          and all(isinstance(a, ast.Name) for a in c.args))
+    if not ok:
+        raise Untranslatable("%s.__init__ body" % cdef.name)
+    order = [a.id for a in c.args]
+    if order != params or order != ARG_ORDER[cdef.name]:
+        raise Untranslatable("%s.__init__ passes %s (parameters %s); the model's constructor has %s" % (cdef.name, order, params, ARG_ORDER[cdef.name]))
+    return order
+
+
+def _props(cdef, nargs):
+    out = {}
+    for n in cdef.body:
+        if isinstance(n, ast.FunctionDef) and any(isinstance(d, ast.Name) and d.id == "property" for d in n.decorator_list):
+            body = _strip_doc(n.body)
+            r = body[0].value if len(body) == 1 and isinstance(body[0], ast.Return) else None
+            ok = (isinstance(r, ast.Subscript) and isinstance(r.value, ast.Attribute) and isinstance(r.value.value, ast.Name) and r.value.value.id == "self"
+                  and r.value.attr == "args" and isinstance(r.slice, ast.Constant) and isinstance(r.slice.value, int) and 0 <= r.slice.value < nargs)
+            if not ok:
+                raise Untranslatable("property %s.%s" % (cdef.name, n.name))
+            out[n.name] = r.slice.value
+    return out
+
+
+def _aexpr(e, props, locs):
+    if isinstance(e, ast.Constant) and isinstance(e.value, int) and not isinstance(e.value, bool):
+        return str(e.value) if e.value >= 0 else "(%d)" % e.value
+    if isinstance(e, ast.UnaryOp) and isinstance(e.op, ast.USub) and isinstance(e.operand, ast.Constant) and isinstance(e.operand.value, int):
+        return "(-%d)" % e.operand.value
+    if isinstance(e, ast.Name) and e.id in locs:
+        return locs[e.id]
+    if isinstance(e, ast.Attribute) and isinstance(e.value, ast.Name) and e.value.id == "self" and e.attr in props:
+        return "a%d" % props[e.attr]
+    if isinstance(e, ast.BinOp) and type(e.op) in BIN:
+        return "(%s %s %s)" % (_aexpr(e.left, props, locs), BIN[type(e.op)], _aexpr(e.right, props, locs))
+    raise Untranslatable("expression " + ast.dump(e)[:80])
+
+
+def _single_return(f, what):
+    body = _strip_doc(f.body)
+    if len(body) != 1 or not isinstance(body[0], ast.Return) or f.decorator_list:
+        raise Untranslatable(what + " is not a single return")
+    return body[0].value
+
+
+def gen_actval(repo):
+    tree = ast.parse(open(os.path.join(repo, "checkpoint_schedules", "schedule.py")).read())
+    classes = {c.name: c for c in ast.walk(tree) if isinstance(c, ast.ClassDef)}
+    for c in ("CheckpointAction", "Forward", "Reverse", "Copy", "Move", "EndForward", "EndReverse"):
+        if c not in classes:
+            raise Untranslatable("class %s not found" % c)
+    base = _methods(classes["CheckpointAction"])
+    # __init__(self, *args): self.args = args
+    bi = base.get("__init__")
+    bb = _strip_doc(bi.body) if bi is not None else []
+    ok = (bi is not None and [a.arg for a in bi.args.args] == ["self"] and bi.args.vararg is not None and bi.args.vararg.arg == "args" and len(bb) == 1
+          and isinstance(bb[0], ast.Assign) and len(bb[0].targets) == 1 and isinstance(bb[0].targets[0], ast.Attribute)
+          and isinstance(bb[0].targets[0].value, ast.Name) and bb[0].targets[0].value.id == "self" and bb[0].targets[0].attr == "args"
+          and isinstance(bb[0].value, ast.Name) and bb[0].value.id == "args")
+    if not ok:
+        raise Untranslatable("CheckpointAction.__init__ is not `self.args = args`")
+    # __eq__(self, other): type(self) is type(other) and self.args == other.args
+    eq = base.get("__eq__")
+    if eq is None or [a.arg for a in eq.args.args] != ["self", "other"]:
+        raise Untranslatable("CheckpointAction.__eq__(self, other) not found")
+    r = _single_return(eq, "__eq__")
+
+    def is_type_of(x, name):
+        return isinstance(x, ast.Call) and isinstance(x.func, ast.Name) and x.func.id == "type" and len(x.args) == 1 and isinstance(x.args[0], ast.Name) and x.args[0].id == name and not x.keywords
+
+    def is_args_of(x, name):
+        return isinstance(x, ast.Attribute) and x.attr == "args" and isinstance(x.value, ast.Name) and x.value.id == name
+    ok = (isinstance(r, ast.BoolOp) and isinstance(r.op, ast.And) and len(r.values) == 2
+          and isinstance(r.values[0], ast.Compare) and len(r.values[0].ops) == 1 and isinstance(r.values[0].ops[0], ast.Is)
+          and is_type_of(r.values[0].left, "self") and is_type_of(r.values[0].comparators[0], "other")
+          and isinstance(r.values[1], ast.Compare) and len(r.values[1].ops) == 1 and isinstance(r.values[1].ops[0], ast.Eq)
+          and is_args_of(r.values[1].left, "self") and is_args_of(r.values[1].comparators[0], "other"))
+    if not ok:
+        raise Untranslatable("__eq__ is not `type(self) is type(other) and self.args == other.args`: " + ast.dump(r)[:120])
+    for c in ("Forward", "Reverse", "Copy", "Move", "EndForward", "EndReverse"):
+        ms = _methods(classes[c])
+        for m in ("__eq__", "__ne__", "__hash__", "__repr__"):
+            if m in ms:
+                raise Untranslatable("%s overrides %s" % (c, m))
+        if [b.id for b in classes[c].bases if isinstance(b, ast.Name)] != ["CheckpointAction"]:
+            raise Untranslatable("%s bases" % c)
+    for c in ("Copy", "Move"):
+        _init_order(classes[c])
+    for c in ("Copy", "Move", "EndForward", "EndReverse"):
+        for m in ("__len__", "__iter__", "__contains__", "__getitem__"):
+            if m in _methods(classes[c]):
+                raise Untranslatable("%s defines %s (the model has TypeError there)" % (c, m))
+    out = ["(* GENERATED by harness/translate.py from checkpoint_schedules/schedule.py (CheckpointAction.__eq__; __len__, __iter__, __contains__ of Forward",
+           "   and Reverse, attribute names resolved through the @property definitions) -- do not edit *)",
+           "From Coq Require Import ZArith Bool List.", "From CS Require Import Actions ActVal.", "Open Scope Z_scope.", "",
+           "Definition eq_gen (self other : action) : bool := same_kind self other && tuple_eqb (args self) (args other).",
+           "Lemma eq_gen_is_model : eq_gen = py_eq.", "Proof. reflexivity. Qed.", ""]
+    for c, ctor, nz in (("Forward", "Forward a0 a1 a2 a3 a4", "a0 a1 a2 a3 a4"), ("Reverse", "Reverse a0 a1 a2", "a0 a1 a2")):
+        order = _init_order(classes[c])
+        props = _props(classes[c], len(order))
+        for need in ("n0", "n1"):
+            if need not in props or order[props[need]] != need:
+                raise Untranslatable("%s.%s does not read the argument named %s" % (c, need, need))
+        ms = _methods(classes[c])
+        lo = c.lower()
+        # __len__
+        f = ms.get("__len__")
+        if f is None or [a.arg for a in f.args.args] != ["self"]:
+            raise Untranslatable("%s.__len__" % c)
+        out.append("Definition %s_len_gen (a0 a1 : Z) : Z := %s." % (lo, _aexpr(_single_return(f, c + ".__len__"), props, {})))
+        # __contains__
+        f = ms.get("__contains__")
+        if f is None or len(f.args.args) != 2:
+            raise Untranslatable("%s.__contains__" % c)
+        sv = f.args.args[1].arg
+        r = _single_return(f, c + ".__contains__")
+        if not (isinstance(r, ast.Compare) and all(type(o) in CMP for o in r.ops)):
+            raise Untranslatable("%s.__contains__ is not a comparison chain" % c)
+        terms = [r.left] + list(r.comparators)
+        conj = ["(%s %s %s)" % (_aexpr(terms[i], props, {sv: "step"}), CMP[type(r.ops[i])], _aexpr(terms[i + 1], props, {sv: "step"})) for i in range(len(r.ops))]
+        out.append("Definition %s_mem_gen (a0 a1 step : Z) : bool := %s." % (lo, " && ".join(conj)))
+        # __iter__
+        f = ms.get("__iter__")
+        body = _strip_doc(f.body) if f is not None else []
+        y = body[0].value if len(body) == 1 and isinstance(body[0], ast.Expr) else None
+        if not (isinstance(y, ast.YieldFrom) and isinstance(y.value, ast.Call) and isinstance(y.value.func, ast.Name) and y.value.func.id == "range" and not y.value.keywords):
+            raise Untranslatable("%s.__iter__ is not `yield from range(...)`" % c)
+        ra = y.value.args
+        if len(ra) == 2:
+            it = "py_range %s %s" % (_aexpr(ra[0], props, {}), _aexpr(ra[1], props, {}))
+        elif len(ra) == 3 and _aexpr(ra[2], props, {}) == "(-1)":
+            it = "py_range_down %s %s" % (_aexpr(ra[0], props, {}), _aexpr(ra[1], props, {}))
+        else:
+            raise Untranslatable("%s.__iter__ range form" % c)
+        out.append("Definition %s_iter_gen (a0 a1 : Z) : list Z := %s." % (lo, it))
+        out += ["Lemma %s_len_is_model : forall %s, act_len (%s) = len_result (%s_len_gen a0 a1)." % (lo, nz, ctor, lo), "Proof. reflexivity. Qed.",
+                "Lemma %s_mem_is_model : forall %s k, act_mem (%s) k = Ok (%s_mem_gen a0 a1 k)." % (lo, nz, ctor, lo), "Proof. reflexivity. Qed.",
+                "Lemma %s_iter_is_model : forall %s, act_iter (%s) = Ok (%s_iter_gen a0 a1)." % (lo, nz, ctor, lo), "Proof. reflexivity. Qed.", ""]
+    return "\n".join(out) + "\n"
+
+
+GENERATORS["ActValGen"] = gen_actval
+
 
 if __name__ == "__main__":
     repo = os.environ.get("VERIF_REPO", "/repo")
